@@ -15,10 +15,6 @@ import KiraModel.Proofs.SelfStoreLemmas
 namespace K
 open Hand Store
 
-/-- the resources in the arena whose handle is still alive / that are doomed (flag set, not yet removed) -/
-def Hand.St.alive (s : St) : Nat := s.store.arena.iter.countP (fun p => !s.test p.2)
-def Hand.St.doomed (s : St) : Nat := s.store.arena.iter.countP (fun p => s.test p.2)
-
 /-- **exact capacity accounting.**  In every reachable state of a storage with capacity `cap > 0`
     the reported count (`ResourceController::len`) equals
     reserved-not-yet-pushed + waiting-in-the-new-ring + alive-in-the-arena + marked-not-yet-removed,
@@ -81,19 +77,6 @@ theorem C08_queue_bounds_new {ar : Bool} {cap : Nat} (hc : 0 < cap) {s : St} (h 
     (l : Label) (e : SFault) (hs : step ar s l = some (.error e)) :
     ar = false ∧ l = .aPushUnused ∧ e = .queueFull :=
   no_fault (inv_reachable hc h) hs
-
-/-- the interleaving that overflows the unused ring of a capacity-1 storage (three callbacks) -/
-def Hand.overflowWitness : List Label :=
-  [ .gReserve, .gPopUnused, .gPushNew,            -- create A
-    .aBegin, .aEndDrain, .aPopNew, .aPopNew,      -- callback 1: A enters the arena
-    .mark 0,                                      -- A's handle is dropped
-    .aBegin, .aVisit,                             -- callback 2: A is taken out of the arena, its slot is free …
-    .gReserve, .gPopUnused,                       -- … the gameplay thread reserves that slot and finds the unused ring empty …
-    .aPushUnused, .aEndDrain,                     -- … only now is A pushed onto the unused ring
-    .gPushNew,                                    -- B is shipped
-    .aPopNew, .aPopNew,                           -- B enters the arena (still callback 2)
-    .mark 1,                                      -- B's handle is dropped; nothing is created any more
-    .aBegin, .aVisit, .aPushUnused ]              -- callback 3: B is removed; the ring (capacity 1) still holds A
 
 /-- **the full statement of `C08_queue_bounds` is false of the code (finding).**  At the code's
     granularity there is an interleaving — every label enabled, no step skipped — after which the
@@ -231,17 +214,6 @@ theorem C08_slot_freed_on_removal {ar : Bool} {cap : Nat} (hc : 0 < cap) {s s' :
               obtain ⟨_, hc2, _⟩ := wf_pushUnused x wf' hp
               simp only [Store.len, hc2]; exact hlen
 
-/-- runs of the protocol: any number of steps from `s` to `s'` -/
-inductive Hand.Steps (ar : Bool) : St → St → Prop where
-  | refl (s : St) : Steps ar s s
-  | tail {s s' s'' : St} {l : Label} : Steps ar s s' → step ar s' l = some (.ok s'') → Steps ar s s''
-
-theorem Hand.Steps.reachable {ar : Bool} {cap : Nat} {s s' : St} (h : Reachable ar cap s) (hs : Steps ar s s') :
-    Reachable ar cap s' := by
-  induction hs with
-  | refl => exact h
-  | tail _ hst ih => exact Reachable.step ih hst
-
 /-- **no stale ids.**  (1) Slot generations never decrease along any run.  (2) A key that resolved
     and stops resolving in some step is stale from that moment (its generation is below its slot's).
     (3) A stale key never resolves again, in any state any run reaches afterwards — in particular not
@@ -327,24 +299,6 @@ theorem C08_selfref_keys {τ : Type} {cap : Nat} (hc : 0 < cap) (dummy : τ) :
     exact ⟨ss', vs, h1, h2, h3, h5, h6, h7⟩
 
 /-! ### non-vacuity -/
-
-theorem Hand.run_reachable {ar : Bool} {cap : Nat} {s s' : St} (h : Reachable ar cap s) (ls : List Label)
-    (hr : run ar s ls = .ok s') : Reachable ar cap s' := by
-  induction ls generalizing s with
-  | nil => simp [run] at hr; subst hr; exact h
-  | cons l ls ih =>
-    simp only [run] at hr
-    cases hst : step ar s l with
-    | none => simp [hst] at hr; exact ih h hr
-    | some r =>
-      cases r with
-      | error e => simp [hst] at hr
-      | ok s1 => simp [hst] at hr; exact ih (Reachable.step h hst) hr
-
-def Hand.finalOf (r : Except SFault St) : St := match r with | .ok s => s | .error _ => init 0
-def Hand.isOk (r : Except SFault St) : Bool := match r with | .ok _ => true | .error _ => false
-theorem Hand.ok_of_isOk {r : Except SFault St} (h : isOk r = true) : r = .ok (finalOf r) := by
-  cases r <;> simp_all [isOk, finalOf]
 
 /-- a reachable state with a full arena, a dropped handle and a callback in progress: the
     hypotheses of the theorems above are satisfiable in a non-trivial state -/
